@@ -231,8 +231,15 @@ pub fn execute(trie: &mut Trie, calls: &[Call], st: &mut Stats) {
                 shadow = Some(("fresh", main.fresh_like(&v)));
                 t.pidmap_f = HashMap::new();
             } else if spawn_fixed {
-                shadow = Some(("fixed", main.fresh_like(&call.pkt.ver)));
+                // a fixed-version server that went through the same identifier-management calls
+                let mut sh = main.fresh_like(&call.pkt.ver);
                 t.pidmap_f = HashMap::new();
+                for prior in &calls[1..i] {
+                    if matches!(prior.op.as_str(), "acquire" | "register" | "release") {
+                        let _ = do_call(&mut sh, prior, &mut t.pidmap_f);
+                    }
+                }
+                shadow = Some(("fixed", sh));
             }
             st.calls += 1;
             let r = match do_call(&mut main, call, &mut t.pidmap) {
